@@ -583,6 +583,9 @@ class AbstractExcelInPython(ABC):
         return self._average(average_range)
 
     def _countifs(self, count_range: List[List], count_condition: Callable, *range_n_criteria):
+        class Undefined:
+            pass
+
         # Если ячейка в диапазоне критериев пуста, COUNTIFS обрабатывает ее как значение 0.
 
         count_range = self._flatten_list(count_range)
@@ -600,9 +603,8 @@ class AbstractExcelInPython(ABC):
         for [_range, criteria] in range_and_criteria_zip:
             for i in range(len(_range)):
                 if not criteria(_range[i]):
-                    count_range[i] = None
-        count_range = [i if count_condition(i) else None for i in count_range]
-        return len(list(filter(None, count_range)))
+                    count_range[i] = Undefined()
+        return len([i for i in count_range if not isinstance(i, Undefined) and count_condition(i)])
 
     def _sumifs(self, sum_range: List[List], *range_and_criteria):
         # Ячейки в диапазоне, содержащие значение TRUE, оцениваются как 1; ячейки в диапазоне,
